@@ -197,6 +197,9 @@ func (c *Ctx) commitInfoHashReads(P string) Obligation {
 func runC07(c *Ctx) []Obligation {
 	P := "C07"
 	rows := []Row{
+		{Prop: P, ID: "restart.loads-recorded-latest", Fn: "(*store/rootmulti.Store).LoadLatestVersion",
+			Target: RetNotMatch(0, `^\(\*store/rootmulti\.Store\)\.LoadVersion\(rs, store/rootmulti\.getLatestVersion\(rs\.DB\)\)$`),
+			Why: "a restart loads the version recorded as latest in the commit batch (not the newest substore version on disk)"},
 		{Prop: P, ID: "commit.substores-before-batch", Fn: fnRSCommit,
 			Barrier: []string{`^store/rootmulti\.commitStores\(`}, Target: CallTo(`Batch\.(Write|WriteSync)\(|setCommitInfo\(|setLatestVersion\(`), TargetMustExist: true,
 			Why: "every substore version is saved before the commit-info / latest-version batch is even filled"},
